@@ -4,6 +4,7 @@ import PlasVerif.Driver.C19
 import PlasVerif.Driver.C18
 import PlasVerif.Driver.C09
 import PlasVerif.Driver.C08
+import PlasVerif.Driver.C15
 /-!
 Line-protocol driver: one request per line `<property> <stream> <payload…>`, one
 answer per line `<model output>\t<spec output or ->[\t<aux>]`.  Imports only `Model`,
@@ -20,6 +21,7 @@ def dispatch (line : String) : String :=
   | "C18" :: r => C18.handle r
   | "C09" :: r => C09.handle r
   | "C08" :: r => C08.handle r
+  | "C15" :: r => C15.handle r
   | _ => "bad-op"
 
 partial def loop (h : IO.FS.Stream) (out : IO.FS.Stream) : IO Unit := do
